@@ -97,3 +97,14 @@ def run(ck, prog):
     else:
         ck.ok(rule, inst, b.path, site, f"`{render(L)[:70]} {rel} running minimum`; index recorded on the same edge and stored")
     ck.floor(rule, 1)
+
+
+_run_pre_builders = run
+
+
+def run(ck, prog):
+    _run_pre_builders(ck, prog)
+    # every setting of the quantifier is reachable through the public builder chain: setters must not clobber other fields
+    from sa.builders import check_builders
+    check_builders(ck, prog, r"^cluster::kmeans::KMeansParameters$")
+    ck.floor("E2-builder", 2)
